@@ -1,5 +1,6 @@
 import Props.C01
 import Props.C03
+import Props.C12
 import Props.C15
 import Props.C16
 import Props.C17
